@@ -336,9 +336,15 @@ class DiscreteFourierTransformBase(Operator):
         y = self.range.element()
         kwargs.pop('planning_timelimit', None)
 
+        x_arr, y_arr = x.asarray(), y.asarray()
+        if not self.halfcomplex and is_real_dtype(y_arr.dtype):
+            # As in the evaluation, the full transform to real output is
+            # computed into a complex array
+            y_arr = np.empty(y_arr.shape, dtype=x_arr.dtype)
+
         direction = 'forward' if self.sign == '-' else 'backward'
         self._fftw_plan = pyfftw_call(
-            x.asarray(), y.asarray(), direction=direction,
+            x_arr, y_arr, direction=direction,
             halfcomplex=self.halfcomplex, axes=self.axes,
             planning_effort=planning_effort, **kwargs)
 
